@@ -212,8 +212,7 @@ func replay(c *config, res *Result) error {
 			res.Unconfirmed = append(res.Unconfirmed, v)
 		}
 	}
-	for i, w := range res.Witnesses {
-		o := outs[len(viol)+i]
+	judge := func(w Witness, o nativeOutcome) []string {
 		var bad []string
 		if o.Panic != "" {
 			bad = append(bad, "native panic: "+o.Panic)
@@ -230,6 +229,22 @@ func replay(c *config, res *Result) error {
 		}
 		if len(want) != len(o.Observations) || (len(want) > 0 && !reflect.DeepEqual(want, o.Observations)) {
 			bad = append(bad, fmt.Sprintf("observations differ: engine %v native %v", want, o.Observations))
+		}
+		return bad
+	}
+	for i, w := range res.Witnesses {
+		bad := judge(w, outs[len(viol)+i])
+		// harnesses with real goroutines and timers are replayed against the wall clock: a disagreement is
+		// re-run twice before it counts (a loaded machine must not turn into an "encoding mismatch")
+		for try := 0; len(bad) > 0 && try < 2; try++ {
+			again, _, err := nativeRun(c, []nativeCase{{c.Harness, w.Inputs, knownList(c)}})
+			if err != nil || len(again) != 1 {
+				break
+			}
+			bad = judge(w, again[0])
+			if len(bad) == 0 {
+				res.WitnessRetries++
+			}
 		}
 		if len(bad) == 0 {
 			res.WitnessesOK++
